@@ -112,9 +112,13 @@ fn magnitude_checks(ctx: &Ctx) -> SubReport {
                     break;
                 }
                 if cpu > STEP_CPU_LIMIT && bytes <= budget {
+                    // one root cause - work proportional to the operand - shows as bytes or as time:
+                    // a listed alloc-by-operand finding of this instruction covers both symptoms
+                    let listed = format!("C15/alloc-by-operand/{}", name);
+                    let sig = if ctx.known.contains(&listed) { listed } else { format!("C15/time-by-operand/{}", name) };
                     rep.fail(
                         ctx,
-                        Fail::new(format!("C15/time-by-operand/{}", name), format!("{} with {} at INTEGER position {} used {:.2} s of CPU time in one step on a state of {} cells ({} base state)", name, v, pos, cpu, base.cells(), variant)),
+                        Fail::new(sig, format!("{} with {} at INTEGER position {} used {:.2} s of CPU time in one step on a state of {} cells ({} base state)", name, v, pos, cpu, base.cells(), variant)),
                         case,
                     );
                     break;
@@ -392,6 +396,21 @@ pub fn probe_known(key: &str) -> Option<bool> {
             let (mut st, _) = s.build();
             let (_, bytes) = alloc::measure(|| guarded(|| with_machine(|m| m.step_named(&mut st, name))));
             if bytes > budget {
+                return Some(true);
+            }
+        }
+        // the other symptom of the same root cause: time proportional to the operand
+        for pos in 0..int_need.min(4) {
+            let mut s = base.clone();
+            s.ints[pos] = 1 << 30;
+            if name == "INTVECTOR.RAND" && pos == 0 {
+                s.ints[1] = 100;
+                s.ints[2] = 0;
+            }
+            let (mut st, _) = s.build();
+            let t0 = thread_cpu();
+            let (_, bytes) = alloc::measure(|| guarded(|| with_machine(|m| m.step_named(&mut st, name))));
+            if bytes <= budget && thread_cpu() - t0 > STEP_CPU_LIMIT {
                 return Some(true);
             }
         }
